@@ -491,7 +491,12 @@ func filterGetdigit(in *Value, param *Value) (*Value, *Error) {
 	if i <= 0 || i > l {
 		return in, nil
 	}
-	return AsValue(in.String()[l-i] - 48), nil
+	digit := in.String()[l-i]
+	if digit < '0' || digit > '9' {
+		// e. g. the sign of a negative number
+		return in, nil
+	}
+	return AsValue(digit - 48), nil
 }
 
 const filterIRIChars = "/#%[]=:;$&()+,!?*@'~"
